@@ -58,6 +58,13 @@ class Tup(Value):
         return f"Tup({self.items})"
 
 
+class SetV(Tup):
+    """A set / frozenset: the elements in insertion order, no two the same; mutable in place (add, discard, ...)."""
+
+    def __repr__(self):
+        return f"SetV({self.items})"
+
+
 class Lst(Value):
     def __init__(self, items, label=None):
         self.items = list(items)
@@ -462,6 +469,18 @@ def same_value(a, b):
                 return False
             if r is None:
                 res = None
+        return res
+    if isinstance(a, SetV) and isinstance(b, SetV):
+        if len(a.items) != len(b.items):
+            return False
+        res = True
+        for x in a.items:
+            rs = [same_value(x, y) for y in b.items]
+            if any(r is True for r in rs):
+                continue
+            if all(r is False for r in rs):
+                return False
+            res = None
         return res
     if isinstance(a, (Tup, Lst)) and isinstance(b, (Tup, Lst)) and type(a) is type(b):
         if len(a.items) != len(b.items):
@@ -1505,6 +1524,9 @@ class Interp:
         if isinstance(target, ast.Subscript):
             base = self.eval(target.value, frame)
             key = self.eval(target.slice, frame)
+            if isinstance(base, Term) and base.op == "view" and base.args[1] == "dict" and getattr(base.args[0], "owner", None) is not None:
+                self.call_method_model(base, "__setitem__", [key, v], {}, st)
+                return
             if isinstance(base, Dct):
                 base.set(key, v)
             elif isinstance(base, Lst) and isinstance(key, Const) and isinstance(key.v, int) and -len(base.items) <= key.v < len(base.items):
@@ -1893,7 +1915,11 @@ class Interp:
         return Lst(self.eval_elts(e.elts, frame))
 
     def ex_Set(self, e, frame):
-        return Tup(self.eval_elts(e.elts, frame))
+        out = []
+        for x in self.eval_elts(e.elts, frame):
+            if not any(same_value(x, y) is True for y in out):
+                out.append(x)
+        return SetV(out)
 
     def eval_elts(self, elts, frame):
         out = []
@@ -2003,6 +2029,11 @@ class Interp:
                 }.get(op)
                 if f is not None:
                     return Const(f(l.v, r.v))
+            except (ZeroDivisionError, OverflowError, TypeError, ValueError) as ex_:
+                # the operation on these very operands raises (1/0, '%f' % 10**400, 'a' + 1): so does the program
+                x = Term("exc", type(ex_).__name__, str(ex_)[:60])
+                self.emit("raise", node, value=x, implicit=True)
+                raise _Raise(x, node)
             except Exception:
                 pass
         if op == "Add" and (isinstance(l, Term) and l.op == "fstr" or isinstance(r, Term) and r.op == "fstr"):
@@ -2354,6 +2385,14 @@ class Interp:
         return v
 
     # comprehensions -------------------------------------------------------
+    @staticmethod
+    def _as_set(items):
+        out = []
+        for x in items:
+            if not any(same_value(x, y) is True for y in out):
+                out.append(x)
+        return SetV(out)
+
     def _comp(self, e, frame, kind):
         gens = e.generators
         if len(gens) != 1:
@@ -2383,7 +2422,7 @@ class Interp:
                 g_ = Lst(out)
                 g_.is_gen = True
                 return g_
-            return Lst(out) if kind == "list" else Tup(out)
+            return Lst(out) if kind == "list" else (self._as_set(out) if kind == "set" else Tup(out))
         if self.opts.get("concrete_only"):
             raise Undecided(f"a comprehension iterates over a value that constant evaluation does not know ({show(itv)[:70]}, line {e.lineno})")
         item = self.sym_elem(itv, "i")
@@ -2431,7 +2470,7 @@ class Interp:
             g_ = Lst(out)
             g_.is_gen = True
             return g_
-        return Lst(out) if kind == "list" else Tup(out)
+        return Lst(out) if kind == "list" else (self._as_set(out) if kind == "set" else Tup(out))
 
     def eval_nofork(self, e, frame):
         """Evaluate without forking on unknown sub-conditions (inside symbolic comprehensions)."""
@@ -2622,6 +2661,15 @@ class Interp:
                 r_ = self.run_function(inner.args[0], list(inner.args[1]), {k: v for k, v in inner.args[2] if k is not None}, node)
             self.emit("call", node, term=Term("call", callee, tuple(args), tuple(kwargs.items())), callee=callee, args=args, kwargs=kwargs, resolved=None, foreign=True, inlined=False, awaited=True)
             return r_
+        if isinstance(callee, Foreign) and callee.dotted in ("math.isfinite", "math.isnan", "math.isinf", "math.floor", "math.ceil", "math.trunc", "math.fabs") and len(args) == 1 and not kwargs and isinstance(args[0], Const) and isinstance(args[0].v, (int, float)) and not isinstance(args[0].v, bool):
+            # pure functions of one number, on a constant: the standard library's own result (or exception)
+            import math as _math
+            try:
+                return Const(getattr(_math, callee.dotted.split(".")[1])(args[0].v))
+            except (OverflowError, ValueError) as ex_:
+                x = Term("exc", type(ex_).__name__, str(ex_)[:60])
+                self.emit("raise", node, value=x, implicit=True)
+                raise _Raise(x, node)
         if isinstance(callee, Foreign) and callee.dotted.split(".")[0] == "hashlib" and callee.dotted.split(".")[-1] in ("md5", "sha1", "sha256", "sha512", "blake2b") and len(args) == 1 and isinstance(args[0], Const) and isinstance(args[0].v, bytes) and not [k for k in kwargs if k != "usedforsecurity"]:
             # a digest of constant bytes (standard library on a constant)
             import hashlib as _hl
@@ -3057,14 +3105,14 @@ class Interp:
                 return out
         if name in ("frozenset", "set") and len(args) <= 1:
             if not args:
-                return Tup([])
+                return SetV([])
             items = self.concrete_iter(args[0])
             if items is not None:
                 out = []
                 for x in items:
                     if not any(same_value(x, y) is True for y in out):
                         out.append(x)
-                return Tup(out)
+                return SetV(out)
         if name == "next" and 1 <= len(args) <= 2 and isinstance(args[0], Gen):
             r_ = args[0].pull()
             if r_ is not None:
@@ -3184,7 +3232,8 @@ class Interp:
                 return Dct([(Const(k), v) for k, v in kwargs.items()])
             return Term("call", Builtin(name), tuple(args), tuple(kwargs.items()))
         if name == "str" and len(args) == 1:
-            if isinstance(args[0], Const) and isinstance(args[0].v, (str, int)) and not isinstance(args[0].v, bool):
+            if isinstance(args[0], Const) and isinstance(args[0].v, (str, int, float)) and not isinstance(args[0].v, bool):
+                # str() of a float is its shortest round-trip repr (exponent form below 1e-4 and from 1e16 on)
                 return Const(str(args[0].v))
             return Term("call", Builtin(name), tuple(args), ())
         if name == "bool" and len(args) == 1:
@@ -3302,6 +3351,8 @@ class Interp:
                 return False
             if isinstance(v, Lst):
                 return k.name == "list"
+            if isinstance(v, SetV):
+                return k.name in ("set", "frozenset")
             if isinstance(v, Tup):
                 return k.name == "tuple"
             if isinstance(v, Dct):
@@ -3313,6 +3364,37 @@ class Interp:
         """Models of dict/list/str methods on abstract containers and constants."""
         if isinstance(base, Term) and base.op == "view" and base.args[1] == "dict":
             base = base.args[0]
+            owner = getattr(base, "owner", None)
+            if owner is not None and meth in ("setdefault", "update", "pop", "clear", "__setitem__", "__delitem__"):
+                # vars(obj) / obj.__dict__ is the live attribute table
+                keys_ok = lambda ks: all(isinstance(k, Const) and isinstance(k.v, str) for k in ks)
+                if meth == "setdefault" and len(args) == 2 and keys_ok([args[0]]):
+                    if args[0].v not in owner.attrs:
+                        owner.attrs[args[0].v] = args[1]
+                        self.emit("store", node, target=Term("attr", owner, args[0].v), value=args[1], base=owner, attr=args[0].v)
+                    return owner.attrs[args[0].v]
+                if meth == "__setitem__" and len(args) == 2 and keys_ok([args[0]]):
+                    owner.attrs[args[0].v] = args[1]
+                    self.emit("store", node, target=Term("attr", owner, args[0].v), value=args[1], base=owner, attr=args[0].v)
+                    return Const(None)
+                if meth == "update" and len(args) <= 1:
+                    src = args[0] if args else Dct([])
+                    if isinstance(src, Term) and src.op == "view" and src.args[1] == "dict":
+                        src = src.args[0]
+                    if isinstance(src, Dct) and keys_ok([k for k, _ in src.pairs]):
+                        for k, v in list(src.pairs) + [(Const(k_), v_) for k_, v_ in kwargs.items()]:
+                            owner.attrs[k.v] = v
+                            self.emit("store", node, target=Term("attr", owner, k.v), value=v, base=owner, attr=k.v)
+                        return Const(None)
+                if meth == "pop" and 1 <= len(args) <= 2 and keys_ok([args[0]]):
+                    if args[0].v in owner.attrs:
+                        return owner.attrs.pop(args[0].v)
+                    if len(args) == 2:
+                        return args[1]
+                    x = Term("exc", "KeyError")
+                    self.emit("raise", node, value=x)
+                    raise _Raise(x, node)
+                raise Undecided(f"write through an instance __dict__ outside the modelled forms ({meth})")
             if meth not in ("items", "keys", "values", "get"):
                 return NotImplemented
         if isinstance(base, Obj) and base.label.startswith("re.Match"):
@@ -3344,6 +3426,11 @@ class Interp:
                 return Term("view", base, meth)
             if meth == "pop" and args:
                 v = base.get(args[0])
+                if v is None and len(args) == 1 and all(same_value(k, args[0]) is False for k, _ in base.pairs):
+                    # pop of a key that is not there, without a default, raises
+                    x = Term("exc", "KeyError")
+                    self.emit("raise", node, value=x)
+                    raise _Raise(x, node)
                 base.delete(args[0])
                 self.emit("del", node, base=base, key=args[0])
                 return v if v is not None else (args[1] if len(args) > 1 else Term("exc", "KeyError"))
@@ -3371,6 +3458,61 @@ class Interp:
                     return Const(None)
             if meth == "copy" and not args:
                 return Dct([(k, v) for k, v in base.pairs])
+        if isinstance(base, SetV):
+            has = lambda x: [same_value(x, y) for y in base.items]
+            if meth == "add" and len(args) == 1:
+                if not any(r is True for r in has(args[0])):
+                    base.items.append(args[0])
+                    self.emit("mutate", node, base=base, how="add", value=args[0])
+                return Const(None)
+            if meth in ("discard", "remove") and len(args) == 1:
+                rs = has(args[0])
+                if any(r is True for r in rs):
+                    i_ = [r is True for r in rs].index(True)
+                    x = base.items.pop(i_)
+                    self.emit("mutate", node, base=base, how=meth, value=x, removed=x)
+                    return Const(None)
+                if all(r is False for r in rs):
+                    if meth == "remove":
+                        x = Term("exc", "KeyError")
+                        self.emit("raise", node, value=x)
+                        raise _Raise(x, node)
+                    return Const(None)
+                raise Undecided(f"set.{meth} of an element whose membership is not decided")
+            if meth == "clear" and not args:
+                del base.items[:]
+                self.emit("mutate", node, base=base, how="clear", value=None)
+                return Const(None)
+            if meth == "copy" and not args:
+                return SetV(list(base.items))
+            if meth in ("update", "union", "intersection", "difference", "issubset", "issuperset", "isdisjoint", "difference_update", "intersection_update") and len(args) == 1:
+                other = self.concrete_iter(args[0])
+                if other is not None:
+                    def member(x, xs):
+                        rs_ = [same_value(x, y) for y in xs]
+                        if any(r is True for r in rs_):
+                            return True
+                        if all(r is False for r in rs_):
+                            return False
+                        raise Undecided(f"set.{meth}: membership of an element is not decided")
+                    if meth in ("update", "union"):
+                        tgt = base if meth == "update" else SetV(list(base.items))
+                        for x in other:
+                            if not member(x, tgt.items):
+                                tgt.items.append(x)
+                        return Const(None) if meth == "update" else tgt
+                    if meth in ("intersection", "intersection_update", "difference", "difference_update"):
+                        keep = [x for x in base.items if member(x, other) == meth.startswith("intersection")]
+                        if meth.endswith("_update"):
+                            base.items[:] = keep
+                            return Const(None)
+                        return SetV(keep)
+                    if meth == "issubset":
+                        return Const(all(member(x, other) for x in base.items))
+                    if meth == "issuperset":
+                        return Const(all(member(x, base.items) for x in other))
+                    if meth == "isdisjoint":
+                        return Const(not any(member(x, other) for x in base.items))
         if isinstance(base, Lst):
             if meth == "append" and len(args) == 1:
                 base.items.append(args[0])
@@ -3507,7 +3649,9 @@ def exc_kind(v) -> Optional[str]:
 
 
 def obj_dict(o: "Obj") -> Dct:
-    return Dct([(Const(k), v) for k, v in o.attrs.items() if not k.startswith("__")], label=f"{o.label}.__dict__")
+    d = Dct([(Const(k), v) for k, v in o.attrs.items() if not k.startswith("__")], label=f"{o.label}.__dict__")
+    d.owner = o  # an instance's __dict__ is its attribute table: writes through it are attribute stores
+    return d
 
 
 _modset_cache: Dict[int, frozenset] = {}
